@@ -68,8 +68,34 @@ theorem C09_deadline_selection (cfg : Cfg) (now : Nat) (par : Params) :
 theorem C09_deadline_path_independent (cfg : Cfg) (now : Nat) (par : Params) (p : Path) :
     handedDeadline cfg now par p = some (effDeadline cfg now par) := by
   have hp : passesInvokeCtx p = true := by cases p <;> decide
+  have hw : wrapsWhateverTimeout = true := by decide
   unfold handedDeadline effDeadline
-  cases par.ctxDeadline <;> simp [hp]
+  cases par.ctxDeadline <;> simp [hp, hw]
+
+/-- **Timeout 0 is a deadline, not "no deadline".**  A call whose context has no deadline and whose
+    effective timeout (per-call, else configured) is 0 waits on a context that has expired when the call
+    starts, on every dispatch path; in the timed model such a call that never sat at a full send queue and
+    got the dial lock at once has returned by `start + DialTimeout` — it does not wait for the peer. -/
+theorem C09_zero_timeout_expires_at_once (cfg : Cfg) (now : Nat) (par : Params) (p : Path)
+    (hc : par.ctxDeadline = none) (h0 : effTimeout cfg par = 0) :
+    effDeadline cfg now par = now ∧ handedDeadline cfg now par p = some now := by
+  have h := C09_deadline_path_independent cfg now par p
+  have he : effDeadline cfg now par = now := by simp [effDeadline, hc, h0]
+  exact ⟨he, by rw [h, he]⟩
+
+/-- a call with configured timeout 0 against a peer that never answers: it dials, enqueues its request
+    and returns with a timeout without a single tick of the clock (model time 0) -/
+example :
+    let cfg : Cfg := ⟨1, 100, 4, 3, 3, 0⟩
+    let acts : List TAction := ([CallAct.begin, .cas, .add, .pre, .selectAdp (some 0), .gate, .incQ, .store, .lockAcq,
+      .dialOk, .enqueue, .timeout, .decQ, .del, .post].map (fun a => TAction.act (.call 0 a)))
+    (trun cfg (tinit cfg 0) (TAction.act (.spawn ⟨false, 0, none, none, 0⟩) :: acts)).map
+        (fun ts => (ts.now, ts.base.calls.map (·.pc), ts.times.map (fun t => (t.deadline, t.ret)))) =
+      some (0, [.done .timeout], [(0, 0)]) ∧
+    -- … and the clock may not advance while it still waits: `tick` is refused in `wait` at the deadline
+    (trun cfg (tinit cfg 0) (TAction.act (.spawn ⟨false, 0, none, none, 0⟩) :: (acts.take 11 ++ [.tick]))) = none := by
+  decide
+
 
 example : handedDeadline ⟨1, 0, 1, 0, 0, 3000⟩ 10 ⟨false, 0, none, some 500, 0⟩ .middleware = some 510 ∧
     handedDeadline ⟨1, 0, 1, 0, 0, 3000⟩ 10 ⟨false, 0, none, none, 0⟩ .single = some 3010 ∧
